@@ -410,7 +410,7 @@ fn simplify_candidates(sc: &Scenario) -> Vec<Scenario> {
 
 fn simplify_threads(sc: &Scenario) -> Vec<Scenario> {
     let mut v = Vec::new();
-    if let Twin::Threads { threads, instances, schedule } = &sc.twin {
+    if let Twin::Threads { threads, instances, schedule, .. } = &sc.twin {
         // drop one instance at a time (keep at least one)
         if instances.len() > 1 {
             for k in 0..instances.len() {
